@@ -29,7 +29,7 @@ def run(ctx, replay=None):
         bad = re.findall(r'\("(\w+)", "([^"]+)", "([^"]+)", (\d+)%Z\)', txt)
         bad = [b for b in bad if b[3] != "401"]
         ctx.violations.append({"property": "C13", "key": "C13/route-not-protected", "found_input": True,
-                               "what": "unauthenticated request answered %s: %s %s with token kind %s" % (bad[0][3], bad[0][0], bad[0][1], bad[0][2]) if bad
+                               "what": ("unauthenticated request answered %s%s: %s %s with mode/token kind %s" % (int(bad[0][3]) % 1000, " but a handler behind the check ran" if int(bad[0][3]) >= 1000 else "", bad[0][0], bad[0][1], bad[0][2])) if bad
                                else "positive control failed: a token signed by the NRF key was not accepted",
                                "probe": bad[:5], "rerun": "./check C13"})
     elif ctx.proof_broken:
@@ -38,10 +38,12 @@ def run(ctx, replay=None):
                                "what": "route table of the real engine no longer satisfies the theorems at " + ctx.proof_broken["where"],
                                "broken": ctx.proof_broken["where"], "log": ctx.proof_broken["log"]})
     cov.update({"evaluations": probes, "distinct_nontrivial": probes, "exhaustive": True,
-                "rule": "all 16 duplicate-free ordered lists over the three service names x every (method, path) of Engine.Routes() x 7 bad-token kinds "
-                        "(absent, garbage, alg none, HS256, RS512 foreign key, RS256 right key, missing Bearer prefix) with OAuth2Required=true and a real RSA NRF key; "
+                "rule": "all 16 duplicate-free ordered lists over the three service names x 3 modes (router built before the NRF registration sets OAuth2Required, "
+                        "as at start-up; flag set before the router is built; flag set with no NRF certificate configured) x every (method, path) of Engine.Routes() x 7 bad-token kinds "
+                        "(absent, garbage, alg none, HS256, RS512 foreign key, RS256 right key, missing Bearer prefix), real RSA NRF key, real processor behind the routes; "
+                        "refused = status 401, body is the single problem object, no handler wrote after the check, planted subscriber context untouched, no notification sent; "
                         "positive control: a token signed by the NRF key passes on the greeting routes",
-                "samples": [["GET", "/nchf-convergedcharging/v3/", "absent", 401], ["PUT", "/nchf-convergedcharging/v3/recharging/:rechargingInfo", "rs512-wrong-key", 401]],
+                "samples": [["GET", "/nchf-convergedcharging/v3/", "startup-order/absent", 401], ["PUT", "/nchf-convergedcharging/v3/recharging/:rechargingInfo", "no-nrf-certificate/rs512-wrong-key", 401]],
                 "positive_controls_passed": control})
     return finish(ctx, "proof", cov, assumptions=[
         "verify_token stands for oauth.VerifyOAuth (github.com/free5gc/openapi); gin's routing and Abort semantics are exercised, not modelled",
